@@ -24,7 +24,7 @@ impl Check for C02 {
          account inside one transaction; after assigned (`Acct = X`) and inferred amounts; multi-commodity accounts. Oracle: \
          the model replays postings in file order on exact rationals; a ledger whose assertions are all true must be accepted, \
          otherwise rejected with BalanceAssertionFailure whose `-->` line is the posting's line and whose computed balance and \
-         difference equal the model's (compared as sets of terms). Hook events give the number of assertions actually evaluated. \
+         difference equal the model's (compared as sets of terms). Hook events give the number of assertions actually evaluated. A quarter of the cases are written through declared account / commodity aliases and one in six is cut at entry boundaries into a tree of included files on the in-memory file system (diagnostics must then name the posting's own file and line). \
          Non-trivial = final transaction has a specified outcome; distinct by ledger text."
             .to_string()
     }
